@@ -208,15 +208,46 @@ def RtlPost (attempt : Nat → Option (Nat × Nat)) (pos : Nat) (r : Bool × Nat
   (r.1 = true → ∀ p, r.2 < p → p ≤ pos → attempt p = none) ∧
   (r.1 = false → ∀ p, p ≤ pos → attempt p = none)
 
-theorem finderSound_ltr (n : Nat) (finder : Nat → Bool × Nat) (attempt : Nat → Option (Nat × Nat))
-    (h : ∀ pos, pos ≤ n → LtrPost attempt n pos (finder pos)) : FinderSound false n finder attempt := by
+/-- what `FinderSound false n` asks of the answer from `pos`: a `false` answer vouches for the positions
+    up to and including the one the finder left -/
+def LtrSkip (attempt : Nat → Option (Nat × Nat)) (n pos : Nat) (r : Bool × Nat) : Prop :=
+  pos ≤ r.2 ∧ r.2 ≤ n ∧
+  (r.1 = true → ∀ p, pos ≤ p → p < r.2 → attempt p = none) ∧
+  (r.1 = false → ∀ p, pos ≤ p → p ≤ r.2 → attempt p = none)
+
+/-- what `FinderSound true n` asks of the answer from `pos` -/
+def RtlSkip (attempt : Nat → Option (Nat × Nat)) (pos : Nat) (r : Bool × Nat) : Prop :=
+  r.2 ≤ pos ∧
+  (r.1 = true → ∀ p, r.2 < p → p ≤ pos → attempt p = none) ∧
+  (r.1 = false → ∀ p, r.2 ≤ p → p ≤ pos → attempt p = none)
+
+theorem ltrSkip_of_post {attempt : Nat → Option (Nat × Nat)} {n pos : Nat} {r : Bool × Nat}
+    (h : LtrPost attempt n pos r) : LtrSkip attempt n pos r :=
+  ⟨h.1, h.2.1, h.2.2.1, fun hf p h1 h2 => h.2.2.2 hf p h1 (by have := h.2.1; omega)⟩
+
+theorem rtlSkip_of_post {attempt : Nat → Option (Nat × Nat)} {pos : Nat} {r : Bool × Nat}
+    (h : RtlPost attempt pos r) : RtlSkip attempt pos r :=
+  ⟨h.1, h.2.1, fun hf p _ h2 => h.2.2 hf p h2⟩
+
+theorem finderSound_ltr_skip (n : Nat) (finder : Nat → Bool × Nat) (attempt : Nat → Option (Nat × Nat))
+    (h : ∀ pos, pos ≤ n → LtrSkip attempt n pos (finder pos)) : FinderSound false n finder attempt := by
   intro pos hpos
-  simpa [LtrPost] using h pos hpos
+  simpa [LtrSkip] using h pos hpos
+
+theorem finderSound_rtl_skip (n : Nat) (finder : Nat → Bool × Nat) (attempt : Nat → Option (Nat × Nat))
+    (h : ∀ pos, pos ≤ n → RtlSkip attempt pos (finder pos)) : FinderSound true n finder attempt := by
+  intro pos hpos
+  simpa [RtlSkip] using h pos hpos
+
+/-- the searching finders satisfy the stronger post-condition (a `false` answer leaves the position at
+    the end of the scan, so it vouches for everything ahead) -/
+theorem finderSound_ltr (n : Nat) (finder : Nat → Bool × Nat) (attempt : Nat → Option (Nat × Nat))
+    (h : ∀ pos, pos ≤ n → LtrPost attempt n pos (finder pos)) : FinderSound false n finder attempt :=
+  finderSound_ltr_skip n finder attempt fun pos hpos => ltrSkip_of_post (h pos hpos)
 
 theorem finderSound_rtl (n : Nat) (finder : Nat → Bool × Nat) (attempt : Nat → Option (Nat × Nat))
-    (h : ∀ pos, pos ≤ n → RtlPost attempt pos (finder pos)) : FinderSound true n finder attempt := by
-  intro pos hpos
-  simpa [RtlPost] using h pos hpos
+    (h : ∀ pos, pos ≤ n → RtlPost attempt pos (finder pos)) : FinderSound true n finder attempt :=
+  finderSound_rtl_skip n finder attempt fun pos hpos => rtlSkip_of_post (h pos hpos)
 
 /-- the option form: a candidate `q` skips only failing positions; no candidate means all fail -/
 def LtrOpt (attempt : Nat → Option (Nat × Nat)) (n pos : Nat) : Option Nat → Prop
@@ -250,171 +281,7 @@ theorem fails_of_not {attempt : Nat → Option (Nat × Nat)} {C : Nat → Prop} 
   | none => rfl
   | some m => exact absurd (hC p hp (by rw [ha]; simp)) h
 
-/-! ### the weaker reading of a `false` answer -/
-
-/-- what `FinderSkipSound false n` asks of the answer from `pos` -/
-def LtrSkip (attempt : Nat → Option (Nat × Nat)) (n pos : Nat) (r : Bool × Nat) : Prop :=
-  pos ≤ r.2 ∧ r.2 ≤ n ∧
-  (r.1 = true → ∀ p, pos ≤ p → p < r.2 → attempt p = none) ∧
-  (r.1 = false → ∀ p, pos ≤ p → p ≤ r.2 → attempt p = none)
-
-/-- what `FinderSkipSound true n` asks of the answer from `pos` -/
-def RtlSkip (attempt : Nat → Option (Nat × Nat)) (pos : Nat) (r : Bool × Nat) : Prop :=
-  r.2 ≤ pos ∧
-  (r.1 = true → ∀ p, r.2 < p → p ≤ pos → attempt p = none) ∧
-  (r.1 = false → ∀ p, r.2 ≤ p → p ≤ pos → attempt p = none)
-
-theorem finderSkipSound_ltr (n : Nat) (finder : Nat → Bool × Nat) (attempt : Nat → Option (Nat × Nat))
-    (h : ∀ pos, pos ≤ n → LtrSkip attempt n pos (finder pos)) : FinderSkipSound false n finder attempt := by
-  intro pos hpos
-  simpa [LtrSkip] using h pos hpos
-
-theorem finderSkipSound_rtl (n : Nat) (finder : Nat → Bool × Nat) (attempt : Nat → Option (Nat × Nat))
-    (h : ∀ pos, pos ≤ n → RtlSkip attempt pos (finder pos)) : FinderSkipSound true n finder attempt := by
-  intro pos hpos
-  simpa [RtlSkip] using h pos hpos
-
-/-- the strong reading implies the weak one -/
-theorem finderSkipSound_of_sound (rtl : Bool) (n : Nat) (finder : Nat → Bool × Nat) (attempt : Nat → Option (Nat × Nat))
-    (h : FinderSound rtl n finder attempt) : FinderSkipSound rtl n finder attempt := by
-  intro pos hpos
-  have := h pos hpos
-  cases rtl
-  · simp only [Bool.false_eq_true, if_false] at this ⊢
-    exact ⟨this.1, this.2.1, this.2.2.1, fun hf p h1 h2 => this.2.2.2 hf p h1 (by omega)⟩
-  · simp only [if_true] at this ⊢
-    exact ⟨this.1, this.2.1, fun hf p _ h2 => this.2.2 hf p h2⟩
-
-/-- The loop of `Runner.scan` equals the naive scan already under the weaker reading of the finder's
-    `false` answer (the proof of `scanLoop_eq_naiveFrom` with the no-candidate case redone). -/
-theorem scanLoop_eq_naiveFrom_skip (finder : Nat → Bool × Nat) (after : Nat → Nat) (attempt : Nat → Option (Nat × Nat))
-    (rtl : Bool) (n L : Nat)
-    (hS : AttemptShape rtl n attempt) (hF : FinderSkipSound rtl n finder attempt)
-    (hA : AfterSound rtl n after attempt) (hM : MinLenSound rtl n L attempt) :
-    ∀ (fuel pos : Nat), pos ≤ n → dist rtl n pos < fuel →
-      scanLoop finder after attempt rtl n L fuel pos = naiveFrom attempt rtl n pos := by
-  intro fuel
-  induction fuel with
-  | zero => intro pos _ h; omega
-  | succ fuel ih =>
-    intro pos hpos hfuel
-    rw [scanLoop]
-    by_cases hts : tooShort rtl n L pos = true
-    · rw [if_pos hts]
-      exact (naiveFrom_eq_none attempt rtl n pos (tooShort_all_fail rtl n L pos attempt hS hM hpos hts)).symm
-    · rw [if_neg hts]
-      have hf := hF pos hpos
-      have hqn : (finder pos).2 ≤ n := by
-        cases rtl <;> simp at hf <;> omega
-      cases hb : (finder pos).1 with
-      | false =>
-        -- no candidate up to and including q
-        have hupto : ∀ p, (if rtl then (finder pos).2 ≤ p ∧ p ≤ pos else pos ≤ p ∧ p ≤ (finder pos).2) → attempt p = none := by
-          intro p hp
-          cases rtl
-          · simp only [Bool.false_eq_true, if_false] at hf hp
-            exact hf.2.2.2 hb p hp.1 hp.2
-          · simp only [if_true] at hf hp
-            exact hf.2.2 hb p hp.1 hp.2
-        simp only [Bool.false_eq_true, if_false]
-        by_cases hq : (finder pos).2 = stopPos rtl n
-        · rw [if_pos hq]
-          symm
-          apply naiveFrom_eq_none
-          intro p hp
-          rw [mem_scanOrder] at hp
-          apply hupto
-          cases rtl <;> simp [stopPos] at hq hp ⊢ <;> omega
-        · rw [if_neg hq]
-          have hq' : bump rtl (finder pos).2 ≤ n ∧ dist rtl n (bump rtl (finder pos).2) < fuel := by
-            cases rtl <;> simp [bump, dist, stopPos] at hf hq hfuel ⊢ <;> omega
-          rw [ih _ hq'.1 hq'.2]
-          symm
-          apply naiveFrom_skip attempt rtl n
-            (if rtl then pos - bump rtl (finder pos).2 else bump rtl (finder pos).2 - pos) pos _ hpos hq'.1
-          · cases rtl <;> simp [bump, stopPos] at hf hq ⊢ <;> omega
-          · intro p hp
-            apply hupto
-            cases rtl <;> simp [bump, stopPos] at hf hq hp ⊢ <;> omega
-      | true =>
-        simp only [if_true]
-        have hskip : naiveFrom attempt rtl n pos = naiveFrom attempt rtl n (finder pos).2 := by
-          apply naiveFrom_skip attempt rtl n (if rtl then pos - (finder pos).2 else (finder pos).2 - pos) pos _ hpos hqn
-          · cases rtl <;> simp at hf ⊢ <;> omega
-          · intro p hp
-            cases rtl
-            · simp only [Bool.false_eq_true, if_false] at hf hp
-              exact hf.2.2.1 hb p hp.1 hp.2
-            · simp only [if_true] at hf hp
-              exact hf.2.1 hb p hp.1 hp.2
-        rw [hskip]
-        cases hq : attempt (finder pos).2 with
-        | some m =>
-          rw [naiveFrom_step attempt rtl n _ hqn, hq]
-        | none =>
-          have ha := hA _ hqn hq
-          simp only []
-          by_cases hst : after (finder pos).2 = stopPos rtl n
-          · rw [if_pos hst]
-            symm
-            apply naiveFrom_eq_none
-            intro p hp
-            rw [mem_scanOrder] at hp
-            by_cases hpq : p = (finder pos).2
-            · rw [hpq]; exact hq
-            · cases rtl
-              · simp only [Bool.false_eq_true, if_false, stopPos] at ha hp hst
-                exact ha.2.2 p (by omega) (by omega)
-              · simp only [if_true, stopPos] at ha hp hst
-                exact ha.2 p (by omega) (by omega)
-          · rw [if_neg hst]
-            have hq' : bump rtl (after (finder pos).2) ≤ n ∧ dist rtl n (bump rtl (after (finder pos).2)) < fuel := by
-              cases rtl <;> simp [bump, dist, stopPos] at hf ha hst hfuel ⊢ <;> omega
-            rw [ih _ hq'.1 hq'.2]
-            symm
-            apply naiveFrom_skip attempt rtl n
-              (if rtl then (finder pos).2 - bump rtl (after (finder pos).2) else bump rtl (after (finder pos).2) - (finder pos).2)
-              _ _ hqn hq'.1
-            · cases rtl <;> simp [bump, stopPos] at ha hst ⊢ <;> omega
-            · intro p hp
-              by_cases hpq : p = (finder pos).2
-              · rw [hpq]; exact hq
-              · cases rtl
-                · simp only [Bool.false_eq_true, if_false, bump, stopPos] at ha hp hst
-                  exact ha.2.2 p (by omega) (by omega)
-                · simp only [if_true, bump, stopPos] at ha hp hst
-                  exact ha.2 p (by omega) (by omega)
-
-/-- `scan_eq_naive` under `FinderSkipSound` -/
-theorem scan_eq_naive_skip (finder : Nat → Bool × Nat) (after : Nat → Nat) (attempt : Nat → Option (Nat × Nat))
-    (rtl : Bool) (n L : Nat)
-    (hS : AttemptShape rtl n attempt) (hF : FinderSkipSound rtl n finder attempt)
-    (hA : AfterSound rtl n after attempt) (hM : MinLenSound rtl n L attempt)
-    (start : Nat) (prevLen : Int) (hstart : start ≤ n) :
-    scan finder after attempt start prevLen rtl n L = (naive attempt start prevLen rtl n).map (Hit.ofSpan rtl) := by
-  have key := scanLoop_eq_naiveFrom_skip finder after attempt rtl n L hS hF hA hM (n + 1)
-  unfold scan naive
-  by_cases hp : prevLen = 0
-  · simp only [hp, if_true]
-    by_cases hs : start = stopPos rtl n
-    · simp [hs]
-    · simp only [hs, if_false]
-      rw [key]
-      · cases rtl <;> simp [bump, stopPos] at hs ⊢ <;> omega
-      · cases rtl <;> simp [bump, dist, stopPos] at hs ⊢ <;> omega
-  · simp only [hp, if_false]
-    rw [key _ hstart]
-    cases rtl <;> simp [dist] <;> omega
-
 /-! ### "first position satisfying a necessary condition" -/
-
-theorem ltrSkip_of_post {attempt : Nat → Option (Nat × Nat)} {n pos : Nat} {r : Bool × Nat}
-    (h : LtrPost attempt n pos r) : LtrSkip attempt n pos r :=
-  ⟨h.1, h.2.1, h.2.2.1, fun hf p h1 h2 => h.2.2.2 hf p h1 (by have := h.2.1; omega)⟩
-
-theorem rtlSkip_of_post {attempt : Nat → Option (Nat × Nat)} {pos : Nat} {r : Bool × Nat}
-    (h : RtlPost attempt pos r) : RtlSkip attempt pos r :=
-  ⟨h.1, h.2.1, fun hf p _ h2 => h.2.2 hf p h2⟩
 
 /-- a forward search for the first position satisfying a necessary condition `C` of a match, over
     the `k` candidates from `pos`; positions beyond the candidates are known to fail -/
@@ -501,8 +368,8 @@ theorem finderAnchors_ltr (lower : Nat → Nat) (a : Anchors) (bm : Option Bm) (
     (attempt : Nat → Option (Nat × Nat))
     (hA : AnchorFacts a text textstart attempt)
     (hB : ∀ b, bm = some b → BmFact lower b false text attempt) :
-    FinderSkipSound false text.length (finderAnchors lower a bm false text textstart) attempt := by
-  apply finderSkipSound_ltr
+    FinderSound false text.length (finderAnchors lower a bm false text textstart) attempt := by
+  apply finderSound_ltr_skip
   intro pos hpos
   unfold finderAnchors
   simp only [Bool.not_false, if_true]
@@ -557,8 +424,8 @@ theorem finderAnchors_rtl (lower : Nat → Nat) (a : Anchors) (bm : Option Bm) (
     (attempt : Nat → Option (Nat × Nat))
     (hA : AnchorFacts a text textstart attempt)
     (hB : ∀ b, bm = some b → BmFact lower b true text attempt) :
-    FinderSkipSound true text.length (finderAnchors lower a bm true text textstart) attempt := by
-  apply finderSkipSound_rtl
+    FinderSound true text.length (finderAnchors lower a bm true text textstart) attempt := by
+  apply finderSound_rtl_skip
   intro pos hpos
   unfold finderAnchors
   simp only [Bool.not_true, Bool.false_eq_true, if_false]
@@ -1193,8 +1060,8 @@ theorem finderLiteralAfterLoop_sound (lower : Nat → Nat) (l : LitAfterLoop) (S
 
 /-! ### the dispatch of `findFirstCharDefault` -/
 
-theorem finderSkipSound_congr (rtl : Bool) (n : Nat) (f g : Nat → Bool × Nat) (attempt : Nat → Option (Nat × Nat))
-    (h : ∀ pos, f pos = g pos) (hg : FinderSkipSound rtl n g attempt) : FinderSkipSound rtl n f attempt := by
+theorem finderSound_congr (rtl : Bool) (n : Nat) (f g : Nat → Bool × Nat) (attempt : Nat → Option (Nat × Nat))
+    (h : ∀ pos, f pos = g pos) (hg : FinderSound rtl n g attempt) : FinderSound rtl n f attempt := by
   intro pos hpos
   rw [h pos]
   exact hg pos hpos
@@ -1220,7 +1087,7 @@ def OptFacts (lower : Nat → Nat) (o : FindOpts) (text : List Nat) (attempt : N
   | .literalAfterLoopLtr =>
     ∃ l S, o.literalAfterLoop = some l ∧ l.loopSet = some S ∧ LitAfterLoopFact lower l S text attempt
   | .requiredLandmarkChainLtr =>
-    ∃ ch, o.chain = some ch ∧ FinderSkipSound false text.length (finderLandmarkChain ch text o.minLen) attempt
+    ∃ ch, o.chain = some ch ∧ FinderSound false text.length (finderLandmarkChain ch text o.minLen) attempt
   | _ => True
 
 /-- the published facts of the path `findFirstCharDefault` takes are true at every successful attempt -/
@@ -1234,9 +1101,9 @@ structure FactsSound (f : Facts) (text : List Nat) (textstart : Nat) (attempt : 
 
 theorem finderDefault_sound (f : Facts) (text : List Nat) (textstart : Nat) (attempt : Nat → Option (Nat × Nat))
     (h : FactsSound f text textstart attempt) :
-    FinderSkipSound f.rtl text.length (finderDefault f text textstart) attempt := by
+    FinderSound f.rtl text.length (finderDefault f text textstart) attempt := by
   by_cases ha : f.anchors.any = true
-  · apply finderSkipSound_congr _ _ _ (finderAnchors f.lower f.anchors f.bm f.rtl text textstart)
+  · apply finderSound_congr _ _ _ (finderAnchors f.lower f.anchors f.bm f.rtl text textstart)
     · intro pos; simp [finderDefault, ha]
     · cases hr : f.rtl with
       | false => exact finderAnchors_ltr _ _ _ _ _ _ (h.anchors ha) (fun b hb => by have := h.bm b hb; rwa [hr] at this)
@@ -1244,18 +1111,18 @@ theorem finderDefault_sound (f : Facts) (text : List Nat) (textstart : Nat) (att
   · have ha' : f.anchors.any = false := by simpa using ha
     cases hb : f.bm with
     | some b =>
-      apply finderSkipSound_congr _ _ _ (finderBmScan f.lower b f.rtl text)
+      apply finderSound_congr _ _ _ (finderBmScan f.lower b f.rtl text)
       · intro pos; simp [finderDefault, ha', hb]
-      · exact finderSkipSound_of_sound _ _ _ _ (finderBmScan_sound _ _ _ _ _ (h.bm b hb))
+      · exact finderBmScan_sound _ _ _ _ _ (h.bm b hb)
     | none =>
       by_cases hsu : shouldUse f.opts = true
       · obtain ⟨hrtl, hM, hO⟩ := h.opt ha' hb hsu
         rw [hrtl]
         have hcongr : ∀ g : Nat → Bool × Nat, (∀ pos, finderOptimized f.lower f.opts text pos = some (g pos)) →
-            FinderSkipSound false text.length g attempt →
-            FinderSkipSound false text.length (finderDefault f text textstart) attempt := by
+            FinderSound false text.length g attempt →
+            FinderSound false text.length (finderDefault f text textstart) attempt := by
           intro g hg hs
-          apply finderSkipSound_congr _ _ _ g _ ?_ hs
+          apply finderSound_congr _ _ _ g _ ?_ hs
           intro pos; simp [finderDefault, ha', hb, hsu, hg pos]
         unfold OptFacts at hO
         cases hm : f.opts.mode <;> rw [hm] at hO <;> simp only [] at hO
@@ -1264,36 +1131,36 @@ theorem finderDefault_sound (f : Facts) (text : List Nat) (textstart : Nat) (att
           | skip
         · -- trailing End anchor with fixed length
           exact hcongr _ (fun pos => by simp [finderOptimized, hm])
-            (finderSkipSound_of_sound _ _ _ _ (finderTrailingEnd_sound _ _ _ hO))
+            (finderTrailingEnd_sound _ _ _ hO)
         · exact hcongr _ (fun pos => by simp [finderOptimized, hm])
-            (finderSkipSound_of_sound _ _ _ _ (finderLeadingString_sound _ _ _ _ _ _ hO hM))
+            (finderLeadingString_sound _ _ _ _ _ _ hO hM)
         · exact hcongr _ (fun pos => by simp [finderOptimized, hm])
-            (finderSkipSound_of_sound _ _ _ _ (finderLeadingStrings_sound _ _ _ _ _ _ _ hO hM))
+            (finderLeadingStrings_sound _ _ _ _ _ _ _ hO hM)
         · exact hcongr _ (fun pos => by simp [finderOptimized, hm])
-            (finderSkipSound_of_sound _ _ _ _ (finderLeadingStrings_sound _ _ _ _ _ _ _ hO hM))
+            (finderLeadingStrings_sound _ _ _ _ _ _ _ hO hM)
         · exact hcongr _ (fun pos => by simp [finderOptimized, hm])
-            (finderSkipSound_of_sound _ _ _ _ (finderFixedSets_sound _ _ _ _ hO.1 hO.2 hM))
+            (finderFixedSets_sound _ _ _ _ hO.1 hO.2 hM)
         · exact hcongr _ (fun pos => by simp [finderOptimized, hm])
-            (finderSkipSound_of_sound _ _ _ _ (finderFixedChar_sound _ _ _ _ _ hO hM))
+            (finderFixedChar_sound _ _ _ _ _ hO hM)
         · exact hcongr _ (fun pos => by simp [finderOptimized, hm])
-            (finderSkipSound_of_sound _ _ _ _ (finderFixedString_sound _ _ _ _ _ hO hM))
+            (finderFixedString_sound _ _ _ _ _ hO hM)
         · exact hcongr _ (fun pos => by simp [finderOptimized, hm])
-            (finderSkipSound_of_sound _ _ _ _ (finderFixedSets_sound _ _ _ _ hO.1 hO.2 hM))
+            (finderFixedSets_sound _ _ _ _ hO.1 hO.2 hM)
         · obtain ⟨l, S, hl, hS, hL⟩ := hO
           exact hcongr _ (fun pos => by simp [finderOptimized, hm, hl])
-            (finderSkipSound_of_sound _ _ _ _ (finderLiteralAfterLoop_sound _ _ _ _ _ _ hS hL hM))
+            (finderLiteralAfterLoop_sound _ _ _ _ _ _ hS hL hM)
         · obtain ⟨ch, hch, hS⟩ := hO
           exact hcongr _ (fun pos => by simp [finderOptimized, hm, hch]) hS
       · have hsu' : shouldUse f.opts = false := by simpa using hsu
         cases hfc : f.fc with
         | none =>
-          apply finderSkipSound_congr _ _ _ finderNoSearch
+          apply finderSound_congr _ _ _ finderNoSearch
           · intro pos; simp [finderDefault, ha', hb, hsu', hfc]
-          · exact finderSkipSound_of_sound _ _ _ _ (finderNoSearch_sound _ _ _)
+          · exact finderNoSearch_sound _ _ _
         | some mem =>
-          apply finderSkipSound_congr _ _ _ (finderFc mem f.rtl text)
+          apply finderSound_congr _ _ _ (finderFc mem f.rtl text)
           · intro pos; simp [finderDefault, ha', hb, hsu', hfc]
-          · exact finderSkipSound_of_sound _ _ _ _ (finderFc_sound _ _ _ _ (h.fc ha' hb hsu' mem hfc))
+          · exact finderFc_sound _ _ _ _ (h.fc ha' hb hsu' mem hfc)
 
 /-! ### scaffolding for the non-vacuity examples of Props/C03 -/
 
